@@ -138,6 +138,39 @@ neighbouring PINs' hashes, invalid PINs. distinct = distinct (pin, seed mod 10!)
         total.exhaustive = Some(true);
         total.note("all 3,628,800 residues of the grid seed modulo 10! were driven through the pandigital PIN".to_string());
     }
+    // ---- structurally special values as the first call in the life of a thread
+    if tier != "miri" {
+        let mut rep = Rep::new();
+        let specials: [u32; 12] = [0, 1, u32::MAX, u32::MAX - 1, FACT10, FACT10 - 1, 1 << 22, 1 << 31, 0x8000_0001, 1_814_400, 3_628_799, 0xFFFF];
+        for (i, sd) in specials.iter().enumerate() {
+            for pin in [1_023_456_789u32, 1000, 9_876_543_210u64 as u32, 999] {
+                let sd = *sd;
+                let r = std::thread::spawn(move || {
+                    let a = guard(|| calculate_hash(pin, sd, &[7u8; 16], &[9u8; 16]));
+                    let b = guard(|| calculate_hash(pin, sd, &[7u8; 16], &[9u8; 16]));
+                    (a, b)
+                })
+                .join();
+                rep.ev(2);
+                let want = model_hash(pin, sd, &[7u8; 16], &[9u8; 16]);
+                match r {
+                    Ok((Ok(a), Ok(b))) => {
+                        if a != want || b != want {
+                            rep.violation(
+                                "c16:first_call_on_fresh_thread",
+                                format!("calculate_hash(pin={}, seed={}) as the first call of a new thread gives {:?} (second call {:?}), scheme gives {:?}", pin, sd, a.map(|h| hex(&h)), b.map(|h| hex(&h)), want.map(|h| hex(&h))),
+                                format!("pin {} {} {} {}", pin, sd, hex(&[7u8; 16]), hex(&[9u8; 16])),
+                            );
+                        }
+                    }
+                    _ => rep.violation("c16:panic:first_call_on_fresh_thread", format!("calculate_hash(pin={}, seed={}) panicked on a fresh thread", pin, sd), format!("pin {} {} {} {}", pin, sd, hex(&[7u8; 16]), hex(&[9u8; 16]))),
+                }
+                rep.cell(&[1600, i as u64, pin as u64 % 7]);
+            }
+        }
+        rep.count("first_calls_on_fresh_threads", 48);
+        total.merge(rep);
+    }
     // ---- everything else
     let (n_pins, n_rand): (u32, u64) = match tier {
         "quick" => (100_000, 2_000_000),
